@@ -165,6 +165,7 @@ class Check:
             "reader": ("SrcOReader.v", ["SrcReader_inst.v", "SrcReaderIter_inst.v"], "SrcReader_tables_inst.v",
                        ["RTCMReader.__init__", "RTCMReader.__next__", "RTCMReader.read", "RTCMReader._parse_ubx", "RTCMReader._parse_nmea", "RTCMReader._parse_rtcm3",
                         "RTCMReader._read_bytes", "RTCMReader._read_line", "RTCMReader._do_error", "RTCMReader.parse"]),
+            "helpers": ("SrcOHelpers.v", ["SrcHelpers_inst.v"], None, ["rtcmhelpers.att2idx", "rtcmhelpers.att2name", "rtcmhelpers.datadesc"]),
             "msg": ("SrcOMsg.v", ["SrcMsg_inst.v"], "SrcMsg_tables_inst.v",
                     ["RTCMMessage.__init__", "RTCMMessage.__setattr__", "RTCMMessage.identity", "RTCMMessage.payload", "RTCMMessage.ismsm",
                      "RTCMMessage._get_dict", "RTCMMessage._do_unknown", "RTCMMessage.serialize"])}
